@@ -435,20 +435,20 @@ theorem eigCert_bracket {K : Type} [Field K] [LinearOrder K] [IsStrictOrderedRin
 
 /-! ## the two spectral routines: post-processing as coded, eigen-solver as an oracle with an explicit contract -/
 
-/-- **eigenvector_centrality_und.**  `vals, vecs = linalg.eig(A)` is an oracle constrained by `EigOracle` (every column a
-unit eigenvector for its entry of `vals`, and `vals` lists every eigenvalue of `A`); `i = argmax(vals)`; the routine returns
+/-- **eigenvector_centrality_und.**  `vals, vecs = linalg.eig(A)` is an oracle constrained by `EigOracle … i` (the selected
+column `i` is a real unit eigenvector for `vals i`, and `vals` lists every eigenvalue of `A`; nothing about other columns); `i = argmax(vals)`; the routine returns
 `eigCentrality vecs i = |vecs[:, i]|`.  For every symmetric matrix with non-negative entries and **every** oracle output
 meeting the contract, the returned vector is non-negative, has unit norm, and is an eigenvector of `A` for `vals i`, which
 no eigenvalue of `A` exceeds (`λ_max`).  Uses the spectral theorem for the Rayleigh bound; no connectivity or simplicity
 assumption (repeated `λ_max`, disjoint copies included). -/
 theorem eigenvector_spec (A : Matrix (Fin n) (Fin n) ℝ) (hsym : ∀ i j, A i j = A j i) (hpos : ∀ i j, 0 ≤ A i j)
-    (vals : Fin n → ℝ) (vecs : Matrix (Fin n) (Fin n) ℝ) (ho : EigOracle A vals vecs)
-    (i : Fin n) (hi : IsArgmax vals i) :
+    (vals : Fin n → ℝ) (vecs : Matrix (Fin n) (Fin n) ℝ) (i : Fin n) (ho : EigOracle A vals vecs i)
+    (hi : IsArgmax vals i) :
     (∀ r, 0 ≤ eigCentrality vecs i r) ∧
     (∑ r, eigCentrality vecs i r * eigCentrality vecs i r = 1) ∧
     (A *ᵥ eigCentrality vecs i = vals i • eigCentrality vecs i) ∧
     (∀ (μ : ℝ) (x : Fin n → ℝ), x ≠ 0 → A *ᵥ x = μ • x → μ ≤ vals i) :=
-  WalksAlg.eigenvector_spec A hsym hpos vals vecs ho i hi
+  WalksAlg.eigenvector_spec A hsym hpos vals vecs i ho hi
 
 /-- the executable post-processing run by the driver (`eigpost`) is that abstract post-processing: it returns an index of a
 maximal entry of `vals` and the entrywise absolute value of that column -/
@@ -495,10 +495,10 @@ example : EighOracle a34 vals34 vecs34 := by
   · ext i j; fin_cases i <;> fin_cases j <;> norm_num [a34, vals34, vecs34, Matrix.mul_apply, Fin.sum_univ_two, Matrix.diagonal]
   · ext i j; fin_cases i <;> fin_cases j <;> norm_num [vecs34, Matrix.mul_apply, Fin.sum_univ_two, Matrix.one_apply]
 
-example : EigOracle a34 vals34 vecs34 ∧ IsArgmax vals34 0 ∧ eigCentrality vecs34 0 = ![3/5, 4/5] := by
-  refine ⟨⟨fun k => ?_, fun k => ?_, fun μ x hx hAx => ?_⟩, fun k => ?_, ?_⟩
-  · ext r; fin_cases k <;> fin_cases r <;> norm_num [a34, vals34, vecs34, Matrix.mulVec, dotProduct, Fin.sum_univ_two]
-  · fin_cases k <;> norm_num [vecs34, Fin.sum_univ_two]
+example : EigOracle a34 vals34 vecs34 0 ∧ IsArgmax vals34 0 ∧ eigCentrality vecs34 0 = ![3/5, 4/5] := by
+  refine ⟨⟨?_, ?_, fun μ x hx hAx => ?_⟩, fun k => ?_, ?_⟩
+  · ext r; fin_cases r <;> norm_num [a34, vals34, vecs34, Matrix.mulVec, dotProduct, Fin.sum_univ_two]
+  · norm_num [vecs34, Fin.sum_univ_two]
   · have h0 := congrFun hAx 0
     have h1 := congrFun hAx 1
     simp only [a34, Matrix.mulVec, dotProduct, Fin.sum_univ_two, Matrix.of_apply, Matrix.cons_val', Matrix.cons_val_zero,
